@@ -192,6 +192,24 @@ def gen_commands(rng, voc, n, weights, spell_gdb=False):
     return out
 
 
+def revisit_flavour(rng, intents, names):
+    """select X, list, select Y, (traffic), select X again, list again: anything remembered per connection between two
+    listings must have been brought up to date by the traffic that arrived while another connection was selected"""
+    if len(names) < 2 or len(intents) < 8:
+        return intents
+    x, y = rng.sample(sorted(names), 2)
+    cut = sorted(rng.sample(range(2, len(intents)), 3))
+    star = {'kind': 'star'}
+    blocks = [[['cmd', 'connection ' + x, {'t': 'connection', 'to': x}], ['cmd', 'list *', {'t': 'list', 'm': star, 'cap': None}],
+               ['cmd', 'connection ' + y, {'t': 'connection', 'to': y}]],
+              [['cmd', 'connection ' + x, {'t': 'connection', 'to': x}], ['cmd', 'list *', {'t': 'list', 'm': star, 'cap': None}]],
+              [['cmd', 'connection all', {'t': 'connection', 'to': 'all'}], ['cmd', 'list *', {'t': 'list', 'm': star, 'cap': None}]]]
+    out = list(intents)
+    for pos, blk in reversed(list(zip(cut, blocks))):
+        out[pos:pos] = blk
+    return out
+
+
 def insert_commands(rng, intents, cmds, at_end=False):
     out = list(intents)
     if at_end:
@@ -245,7 +263,7 @@ def segments(rec):
     cur.seq = -1
     segs.append(cur)
     for seq, kind, payload in rec.events:
-        if kind in ('line', 'cmd', 'eof'):
+        if kind in ('line', 'cmd', 'eof', 'close'):
             cur = Seg()
             cur.kind = kind
             cur.payload = payload
@@ -342,6 +360,8 @@ def judge(sc, st, res, tr, cmd_metas, V, want):
                 rep('C12', 'C12/mustnot-selected', 'breakpoint', 'message %s hit breakpoint %r unexpectedly' % (cl.brief(), bstate.describe()))
             if bexp == MUST:
                 V.bump('live_breakpoint_hits')
+        elif seg.kind == 'close':
+            V.bump('fault_connection_closed_mid_stream')
         elif seg.kind == 'cmd':
             meta = cmd_metas[ci] if ci < len(cmd_metas) else {'t': 'other'}
             ci += 1
